@@ -356,6 +356,7 @@ func cmdCheck(args []string) int {
 			SolverMs:     h.tiered("solverms", tier, 10000),
 			PortfolioSec: h.tiered("portfolio", tier, 60),
 			LoopCap:      h.tiered("loopcap", tier, 0),
+			MaxVals:      h.tiered("maxvals", tier, 0),
 			Verbose:      flags["v"] != "",
 		}
 		if ts := h.tiered("timeout", tier, 0); ts > 0 {
@@ -606,7 +607,7 @@ func confirm(prog *gosym.Program, h *harnessSpec, params map[string]int, v *gosy
 	if !ok {
 		return false, "engine re-execution with the solver model did not reproduce"
 	}
-	if v.Kind == "deadlock" || v.Kind == "race" || rep.Threads > 1 || h.KV["native"] == "0" {
+	if v.Kind == "deadlock" || v.Kind == "race" || v.Kind == "alloc" || rep.Threads > 1 || h.KV["native"] == "0" {
 		return true, "engine-reexecution"
 	}
 	for _, d := range v.Trace {
@@ -783,6 +784,7 @@ func cmdRun(args []string) int {
 		MaxRuns:      atoi(flags["runs"], spec.tiered("runs", tier, 300000)),
 		MaxSteps:     int64(atoi(flags["steps"], spec.tiered("steps", tier, 3_000_000))),
 		PortfolioSec: atoi(flags["portfolio"], 60),
+		MaxVals:      spec.tiered("maxvals", tier, 0),
 		Verbose:      flags["v"] != "",
 		StopOnFirst:  flags["first"] != "",
 	}
